@@ -502,6 +502,7 @@ func (r *lvRun) scenarioLoginSwallowed() {
 		relogin = time.Since(t0).Milliseconds()
 	}
 	r.sink.Emit("drv", "lv.loginswallowed", "deadline_ms", 10000, "relogin_ms", relogin, "connections", atomic.LoadInt32(&conns))
+	time.Sleep(300 * time.Millisecond) // let the new session settle before the deferred Stop
 }
 
 func livenessCmd(args []string) int {
